@@ -7,6 +7,16 @@ Part 1 (this section): `lag`, `lead`, `diff`, `dlog` of `fsic/functions.py`.  Al
 EVERY length (including 0), EVERY integer shift (zero, negative, `|p| ≥ n`), every fill value and every element
 type (subtraction and `log` are parameters).  Part 2 (further down) covers `eval()`: the index rewriting of
 `_resolve_expression_indexes`, and the namespace assembly.
+
+What is NOT here (stated so that the theorem list is not read as more than it is):
+* `diff_spec` / `diff_spec_partial` are for `d ≥ 1`.  For `d = 0` the property's formula is FALSE of the code
+  (`diff_zero`, `diff_full_false_at_witness`: open known finding `diff-d0`); for `d < 0` the code raises
+  NotImplementedError (`diff_neg`) and the property is silent.
+* "`eval(expr)` returns what Python/NumPy computes for `expr`" is NOT modelled: CPython's evaluator is outside the
+  model.  The theorems cover what fsic itself does around the call — which text is handed to Python (index
+  rewriting), which object every name is bound to (namespace precedence, current store after any history), which
+  error an undefined name becomes, and that the package helper table is not written.  The value of the evaluated
+  expression is compared with NumPy on the stored series by the C16 oracle only (values, dtype, shape, error class).
 -/
 set_option linter.unusedSimpArgs false
 namespace Fsic.C16
@@ -545,5 +555,87 @@ theorem rebind_then_eval {V : Type} (w : NsWorld V) (s0 : Dict V) (ops : List (S
 
 example : (namespaceAfter (⟨[[("lag", 0)]]⟩ : NsWorld Nat) [("X", 1), ("Y", 2)] [.eval, .rebind "X" 7, .eval] none).get "X"
     = some 7 := by decide
+
+/-! ## Non-vacuity (review): the hypotheses of the theorems above at concrete instances -/
+
+-- lag_spec / lead_spec: `hi`, inside and outside the array
+example : (lag [10, 20, 30, 40] 1 (0 : Int))[2]? = some 20 ∧ (lag [10, 20, 30, 40] 1 (0 : Int))[0]? = some 0 :=
+  ⟨by rw [lag_spec _ _ _ 2 (by decide)]; decide, by rw [lag_spec _ _ _ 0 (by decide)]; decide⟩
+example : (lead [10, 20, 30, 40] 3 (0 : Int))[0]? = some 40 := by rw [lead_spec _ _ _ 0 (by decide)]; decide
+-- diff_spec / diff_spec_partial: hd, hi, h at d = 2, i = 3; diff_neg: hd
+example : ∃ r, diff (· - ·) [10, 20, 40, 70] 2 (0 : Int) = some r ∧ r[3]? = some (70 - 20) :=
+  diff_spec_partial (· - ·) [10, 20, 40, 70] 2 0 (by decide) 3 (by decide) (by decide)
+example : diff (· - ·) [10, 20, 40, 70] (-1) (0 : Int) = none := diff_neg _ _ _ _ (by decide)
+-- lag_lead_pure / diff_pure / dlog_pure: `hx` in a memory with two arrays (the second is the input)
+example : (lagM (⟨[[1, 2], [10, 20, 40]]⟩ : Mem Int) 1 1 0).1.read 1 = [10, 20, 40] ∧
+    (lagM (⟨[[1, 2], [10, 20, 40]]⟩ : Mem Int) 1 1 0).1.read (lagM (⟨[[1, 2], [10, 20, 40]]⟩ : Mem Int) 1 1 0).2 =
+      [0, 10, 20] := by
+  have h := lag_lead_pure (⟨[[1, 2], [10, 20, 40]]⟩ : Mem Int) 1 1 0 (by decide)
+  exact ⟨h.1, h.2.1.trans (by decide)⟩
+example : (dlogM (· - ·) (· * 2) (⟨[[1, 2], [10, 20, 40]]⟩ : Mem Int) 1 1 0).map (fun r => (r.1.read 1, r.1.read r.2)) =
+    some ([10, 20, 40], [0, 20, 40]) := by decide
+-- positional_group_verbatim / positional_untouched / positional_expression_identity: `Positional` for a real slice
+-- group sitting after a backticked group
+theorem exPos : Positional (some ['0', ':', '2']) := by intro t h; cases h; decide
+example : substitute (resolveMatch (listSpan [.int 1, .int 2]))
+    ([.lit 'X', .grp (some ['`', '1', '`']) ['[', '`', '1', '`', ']'], .lit '+', .lit 'Y'] ++
+      .grp (some ['0', ':', '2']) ['[', '0', ':', '2', ']'] :: [.lit '*', .lit '2']) =
+    .ok ['X', '[', '0', ']', '+', 'Y', '[', '0', ':', '2', ']', '*', '2'] := by
+  rw [positional_untouched _ _ _ _ _ exPos]; rfl
+example : substitute (resolveMatch (listSpan [.int 1])) [.lit 'Y', .grp (some ['0', ':', '2']) ['[', '0', ':', '2', ']']] =
+    .ok ['Y', '[', '0', ':', '2', ']'] :=
+  positional_expression_identity _ _ (by
+    intro g t h
+    simp only [List.mem_cons, List.not_mem_nil, or_false, reduceCtorEq, false_or, Seg.grp.injEq] at h
+    rw [h.1]; exact exPos)
+-- no_backtick_identity: `h`
+example : resolveExpression (listSpan [.int 1]) ['Y', '[', '0', ':', '2', ']'] = .ok ['Y', '[', '0', ':', '2', ']'] :=
+  no_backtick_identity _ _ (by decide)
+
+/-- The span `[2000, 2001, 2002, 2003]`. -/
+def exSpan : Span := listSpan [.int 2000, .int 2001, .int 2002, .int 2003]
+-- resolve_index_label: hbt, hcol, hden, hloc
+example : resolveGroupSem exSpan (some [' ', '`', '2', '0', '0', '1', '`', ' ']) = .ok (.index 1) :=
+  resolve_index_label exSpan _ (.int 2001) 1 true (by decide) (by decide) (by decide) (by decide)
+-- resolve_labels_spec: all eight hypotheses (`[`2001`: `2002`]`)
+example : resolveGroupSem exSpan (some (['`', '2', '0', '0', '1', '`'] ++ ':' :: [' ', '`', '2', '0', '0', '2', '`'])) =
+      .ok (.slice (.val 1) (.val (2 + 1)) []) ∧ labelSliceBounds exSpan (.int 2001) (.int 2002) = .ok (1, 2 + 1) :=
+  resolve_labels_spec exSpan _ _ (.int 2001) (.int 2002) 1 2 (by decide) (by decide) (by decide) (by decide)
+    (by decide) (by decide) (by decide) (by decide)
+-- resolve_labels_spec_step: the same with a step `2`
+example : resolveGroupSem exSpan
+    (some (['`', '2', '0', '0', '0', '`'] ++ ':' :: (['`', '2', '0', '0', '2', '`'] ++ ':' :: [' ', '2']))) =
+      .ok (.slice (.val 0) (.val (2 + 1)) (strip [' ', '2'])) :=
+  resolve_labels_spec_step exSpan _ _ _ (.int 2000) (.int 2002) 0 2 (by decide) (by decide) (by decide) (by decide)
+    (by decide) (by decide) (by decide) (by decide) (by decide)
+-- mixed_slice_positional_start / _stop: all hypotheses
+example : resolveGroupSem exSpan (some (['1'] ++ ':' :: ['`', '2', '0', '0', '2', '`'])) =
+    .ok (.slice (.text (strip ['1'])) (.val (2 + 1)) []) :=
+  mixed_slice_positional_start exSpan _ _ (.int 2002) 2 (by decide) (by decide) (by decide) (by decide) (by decide)
+    (by decide)
+example : resolveGroupSem exSpan (some (['`', '2', '0', '0', '1', '`'] ++ ':' :: [' ', '3'])) =
+    .ok (.slice (.val 1) (.text (strip [' ', '3'])) []) :=
+  mixed_slice_positional_stop exSpan _ _ (.int 2001) 1 true (by decide) (by decide) (by decide) (by decide) (by decide)
+    (by decide)
+-- bound_positional: `h`
+example : startBound exSpan ['3'] = .ok (.text ['3']) ∧ stopBound exSpan ['3'] = .ok (.text ['3']) :=
+  bound_positional exSpan ['3'] (by decide)
+-- builtin_spans_python_int: the premise holds with a real position
+example : exSpan.locate (.int 2002) = .pos 2 true := by decide
+-- missing_label_keyerror: hbt, hcol, hden
+example : resolveGroupSem exSpan (some ['`', '1', '9', '`']) = .error .keyError :=
+  missing_label_keyerror exSpan _ (by decide) (by decide) (by decide)
+-- eval_no_mutation: `hl` (the helper table is dict 0) with real variables and locals
+example : (assemble (⟨[[("lag", 0), ("log", 1)]]⟩ : NsWorld Nat) none [("X", 10), ("lag", 11)] (some [("X", 20)])).1.read 0 =
+    [("lag", 0), ("log", 1)] :=
+  eval_no_mutation _ _ _ 0 (by decide)
+-- undefined_name_attributeError: hl, hv, hh with non-empty locals, variables and helper table
+example : evalName ((assemble (⟨[[("lag", 0)]]⟩ : NsWorld Nat) none [("GDP", 1)] (some [("k", 2)])).1.read
+      (assemble (⟨[[("lag", 0)]]⟩ : NsWorld Nat) none [("GDP", 1)] (some [("k", 2)])).2) ["GDP"] "Gdp" =
+    .attributeError "Gdp" :=
+  undefined_name_attributeError _ _ _ _ _ (by decide) (by decide) (by decide)
+-- eval_depends_only_on_final_store: `h` for two different histories with the same final store
+example : applyOps [("X", 1)] [StoreOp.eval, .rebind "Y" 5] = applyOps [("X", 1)] [StoreOp.rebind "Y" (5 : Nat), .eval, .eval] := by
+  decide
 
 end Fsic.C16
